@@ -108,9 +108,14 @@ func decodeProtocolDoc(v *SubView, rootLocal string) {
 	root, err := ParseXML(v.XML)
 	if err != nil {
 		// is it well-formed up to the end of the root element?
+		// ... or when character data in front of the root element is skipped as well?
 		if cut := rootEnd(v.XML); cut > 0 {
 			if r2, err2 := ParseXML(v.XML[:cut]); err2 == nil {
 				root, v.Lenient = r2, true
+			} else if i := strings.IndexByte(string(v.XML), '<'); i > 0 && i < cut {
+				if r3, err3 := ParseXML(v.XML[i:cut]); err3 == nil {
+					root, v.Lenient = r3, true
+				}
 			}
 		}
 		if root == nil {
